@@ -40,6 +40,8 @@ ERR_CLASSES = [
     # F17: contexts must be PAUSED with a COMPLETED batch
     (r"invalid request context (batch )?state", "service_context_not_paused"),
     (r"asset not found", "htlc_asset_not_found"),
+    (r"is over the supply limit", "htlc_supply_over_limit"),
+    (r"asset is currently inactive", "htlc_asset_inactive"),
 ]
 
 EVERY = T(6, 2)
@@ -384,6 +386,13 @@ class GenesisCheck:
         wall = time.time() - t0
         if viol:
             lines = open(allf).read().split("\n")
+            groups = {}
+            for ln_, c_, m_, k_, e_ in viol:
+                err_ = json.loads(lines[ln_ - 1])["ev"].get("res", {}).get("err", "")
+                key_ = (c_, m_, k_, e_ or re.sub(r"[0-9]+", "N", err_)[:90])
+                groups[key_] = groups.get(key_, 0) + 1
+            for key_, n_ in sorted(groups.items(), key=lambda kv: -kv[1])[:12]:
+                log(f"[judge] {n_} new instance(s): clause={key_[0]} module={key_[1]} kind={key_[2]} class/err={key_[3]!r}")
             ln, clause, module, kind, ecls = viol[0]
             line = json.loads(lines[ln - 1])
             path = self.save_replay(pid, tier, seed, line, recs, clause, module, kind)
